@@ -15,8 +15,8 @@ AllValid(U) == \A t \in U : ValidThing(t)
 RefSatisfies(U) ==
     LET S == SetToSeq(U)
         n == Len(S)
-        K == [i \in 1..n |-> RefKey(S[i])]
-        O == [i \in 1..n |-> [j \in 1..n |-> RefObsK("key", S[i], S[j], K[i], K[j])]]
+        K == TLCEval([i \in 1..n |-> RefKey(S[i])])
+        O == TLCEval([i \in 1..n |-> TLCEval([j \in 1..n |-> RefObsK("key", S[i], S[j], K[i], K[j])])])
     IN  /\ \A i, j \in 1..n : PairBad(O[i][j]) = {} /\ MirrorBad(O[i][j], O[j][i]) = {}
         /\ \A i \in 1..n : SelfBad(O[i][i]) = {}
         /\ TriplesOK(O, n)
@@ -61,8 +61,8 @@ ASSUME ClauseUnitTests
 TriplesOKLaw(U) ==
     LET S == SetToSeq(U)
         n == Len(S)
-        K == [i \in 1..n |-> RefKey(S[i])]
-        O == [i \in 1..n |-> [j \in 1..n |-> RefObsK("key", S[i], S[j], K[i], K[j])]]
+        K == TLCEval([i \in 1..n |-> RefKey(S[i])])
+        O == TLCEval([i \in 1..n |-> TLCEval([j \in 1..n |-> RefObsK("key", S[i], S[j], K[i], K[j])])])
         Slow(M) == \A i, j, k \in 1..n : TripleBad(M[i][j], M[j][k], M[i][k]) = {}
         Flip(p, q, f) == [O EXCEPT ![p][q][f] = ~@]
     IN  /\ TriplesOK(O, n) = Slow(O)
